@@ -94,7 +94,7 @@ def run_case(rng, res, idx, tier):
         sp = copy.deepcopy(spec)
         sp['cfg'].update(pl)
         policy = rng.choice(simdist.POLICIES)
-        run = scenario.run(sp, W, seed=rng.randrange(10 ** 6), policy=policy, stress=(tier != 'quick' and rng.random() < 0.15))
+        run = scenario.run(sp, W, seed=rng.randrange(10 ** 6), policy=policy, stress=(rng.random() < 0.15))
         res.count('worlds_run')
         if run.inconclusive:
             res.inconclusive.append('simulator watchdog fired')
